@@ -1148,6 +1148,9 @@ fn corpus() -> Vec<String> {
         "a:\u{2028}1\n",
         "a: \u{a0}b\n",
         "\u{feff}é: \u{feff}ü\n",
+        "? a\n:a # cé\n# 中",
+        "a: 1 # é\n# 中\n",
+        "[a # é",
     ]
     .iter()
     .map(|s| s.to_string())
@@ -1259,6 +1262,17 @@ fn empty_tag_suffix(doc: &str) -> bool {
     false
 }
 
+/// The text after the last line break holds a comment with a multi-byte character and runs to
+/// the end of input.  The parser dependency advances the column by *bytes* over comment text
+/// for streaming input (by characters for in-memory input); the only position on the same
+/// line after a comment is the end of input, so only errors located there differ.
+fn multibyte_comment_at_eof(doc: &str) -> bool {
+    let last = doc.rsplit(['\n', '\r']).next().unwrap_or("");
+    // a comment starts at a '#' at the beginning of the line or after a blank
+    let b = last.as_bytes();
+    (0..b.len()).any(|i| b[i] == b'#' && (i == 0 || b[i - 1] == b' ' || b[i - 1] == b'\t') && !last[i..].is_ascii())
+}
+
 struct C09;
 
 impl C09 {
@@ -1339,6 +1353,9 @@ impl Property for C09 {
         if let Case::Agree { doc, .. } | Case::Bom { doc, .. } = c {
             if empty_tag_suffix(doc) {
                 v.push("empty_tag_suffix");
+            }
+            if multibyte_comment_at_eof(doc) {
+                v.push("multibyte_comment_at_eof");
             }
         }
         v
@@ -1523,7 +1540,7 @@ impl Property for C09 {
         // ---- random documents -------------------------------------------------------------------------
         let hazard_free = |c: &Case| !iofault::percent_tail(case_text(c).as_bytes()) && !matches!(c, Case::Agree{doc, ..} | Case::Bom{doc, ..} if iofault::percent_tail(doc.as_bytes()));
         let strat = arb_agree().prop_filter("reader_percent_eof", hazard_free);
-        ctx.run_strategy("agree-random", 1, ctx.tier.pick(30_000, 400_000), &strat, nontrivial);
+        ctx.run_strategy("agree-random", 1, ctx.tier.pick(30_000, 600_000), &strat, nontrivial);
         let strat = arb_bom().prop_filter("reader_percent_eof", hazard_free);
         ctx.run_strategy("bom-random", 2, ctx.tier.pick(8_000, 100_000), &strat, nontrivial);
 
